@@ -18,7 +18,7 @@ func init() {
 			"(successors-complete) the successor table used for skip propagation contains data edges, control edges and branch targets; " +
 			"(filter) values are forwarded only for declared data predecessors, dependencies only for declared control predecessors, unknown target channels are errors; " +
 			"(workflow-flags) the three dependency kinds of a Workflow are lowered with the matching (noControl,noData) flags and Workflow branches carry no data.",
-		decided:    []string{"ready-guards", "cycle-gate", "skip-report", "successors-complete", "filter", "workflow-flags"},
+		decided:    []string{"ready-guards", "cycle-gate", "skip-report", "successors-complete", "filter", "workflow-flags", "skip-survives", "ready-poll-all"},
 		notDecided: []string{"correctness of the skip bookkeeping over all shapes x branch outcomes", "merge semantics of the assembled input", "user branch conditions"},
 		run:        runC02,
 	})
